@@ -245,6 +245,10 @@ def interfaces(ob, which, d, k):
 @scenario('C12', 'local_system.first_step', ['torchtt.solvers.amen_solve', 'torchtt.solvers._amen_solve_python'],
           quick=[dict(d=2, guess=g, direct=True) for g in (False, True)] + [dict(d=2, guess=False, direct=False)], replay=None, max_paths=400)
 def local_system_first_step(ob, d, guess, direct):
+    local_system_body(ob, d, guess, direct, 'solve')
+
+
+def local_system_body(ob, d, guess, direct, which):
     """call-site contract inside the real sweep: at the first local solve of the first sweep of amen_solve the system handed to
     torch.linalg.solve (direct branch) is assembled from the CURRENT interfaces of the sweep with the right index roles
          B[(l,m,L),(r,n,R)] = SUM_{s,S} Phis[k][l,s,r] A_k[s,m,n,S] Phis[k+1][L,S,R]
@@ -257,14 +261,17 @@ def local_system_first_step(ob, d, guess, direct):
     hooks.install(ex)
     hooks.install_solvers(ex)
     N = H.sym_sizes(ex, 'n', d)
-    A = ob.tt('A', d, ttm=True, N=N, M=N, dtype='float64')
+    div = which == 'divide'
+    # solve: A is a TT matrix.  divide (torchtt._division.amen_divide(a, b)): the operator is diag(a) for the TT tensor a
+    A = ob.tt('A', d, ttm=True, N=N, M=N, dtype='float64') if not div else ob.tt('a', d, N=N, dtype='float64')
     b = ob.tt('b', d, N=N, dtype='float64')
     g = ob.tt('g', d, N=N, dtype='float64') if guess else None
     seen = []
+    sweep_name = 'amen_divide' if div else '_amen_solve_python'
 
     def frame_of_sweep():
         for fr in reversed(ex.frames):
-            if fr.func is not None and fr.func.qualname.endswith('_amen_solve_python'):
+            if fr.func is not None and fr.func.qualname.endswith(sweep_name):
                 return fr
         return None
 
@@ -295,7 +302,12 @@ def local_system_first_step(ob, d, guess, direct):
         if B._val is None or row is None or col is None:
             ob.undecided('local_matrix', 'value', 'unexpected structure of the matrix handed to linalg.solve: %s' % (B.axes,))
             raise I.PathEnd()
-        want = sum_over(ex_, [Pl.shape[1], Pr.shape[1]], lambda js: Pl.at([l_, js[0], r_]) * Ak.at([js[0], m_, n_, js[1]]) * Pr.at([L_, js[1], R_]))
+        if div:
+            # diagonal operator: A_k[s,m,n,S] = a_k[s,m,S] * [m == n]
+            from ttvc.terms import ite as _ite
+            want = sum_over(ex_, [Pl.shape[1], Pr.shape[1]], lambda js: Pl.at([l_, js[0], r_]) * Ak.at([js[0], m_, js[1]]) * Pr.at([L_, js[1], R_])) * _ite(to_int(m_) == to_int(n_), Term.of(1), Term.zero())
+        else:
+            want = sum_over(ex_, [Pl.shape[1], Pr.shape[1]], lambda js: Pl.at([l_, js[0], r_]) * Ak.at([js[0], m_, n_, js[1]]) * Pr.at([L_, js[1], R_]))
         ob.prove_eq('local_matrix_is_assembled_from_the_interfaces', B.at([row, col]), want)
         rrow = T.align_factors((l_, m_, L_), exp, rhs.axes[0].factors)
         if rhs._val is not None and rrow is not None:
@@ -319,7 +331,7 @@ def local_system_first_step(ob, d, guess, direct):
         want = A.attrs['cores'][k]
         if coreA is want:
             ob.ok('operator.core_is_A_k', 'post')
-        elif isinstance(coreA, STensor) and coreA._val is not None and coreA.ndim == 4:
+        elif isinstance(coreA, STensor) and coreA._val is not None and coreA.ndim == want.ndim:
             all_eq(ob, 'operator.core_is_A_k.shape', coreA.shape, want.shape)
             i = H.fresh_axis_index(ex_, want)
             ob.prove_eq('operator.core_is_A_k.value', coreA.at(i), want.at(i))
@@ -328,12 +340,13 @@ def local_system_first_step(ob, d, guess, direct):
         all_eq(ob, 'operator.shape', list(shape), [L['rx'][k], L['N'][k], L['rx'][k + 1]])
         raise I.PathEnd()
     ex.ext_hooks = {'torch.linalg.solve': on_solve}
-    ex.call_hooks['torchtt.solvers._LinearOp.__init__'] = on_linear_op
+    ex.call_hooks['torchtt._division.LinearOp.__init__' if div else 'torchtt.solvers._LinearOp.__init__'] = on_linear_op
     if direct:
         ex.assume(N[0] * 8 < 400)
-    f = ex.module('torchtt.solvers').env['amen_solve']          # through the public wrapper
-    try:
+    if div:
+        f = ex.module('torchtt._division').env['amen_divide']
+        ex.call(f, [A, b], {'nswp': 1, 'x0': g, 'max_full': 500 if direct else 0, 'verbose': False})
+    else:
+        f = ex.module('torchtt.solvers').env['amen_solve']          # through the public wrapper
         ex.call(f, [A, b], {'nswp': 1, 'x0': g, 'max_full': 500 if direct else 0, 'local_solver': 1, 'use_cpp': False})
-    finally:
-        pass
     ob.fail('local_solve_reached', 'post', 'the sweep finished without a local solve')
